@@ -8,6 +8,7 @@ CONSTANTS MaxN = 4
  CaseVals = {0,1,2}
  NLab = 1
  Fuel = 120
+ ForLate = TRUE
  Variant = "ok"
  Emit = FALSE
 INVARIANTS TraceEq JumpsInnermost LabelsOK AWellFormed
